@@ -21,8 +21,8 @@ macro_rules! stub_property {
     };
 }
 
-stub_property!(c01, C01, "C01");
-stub_property!(c02, C02, "C02");
+pub mod c01;
+pub mod c02;
 pub mod c03;
 pub mod c04;
 pub mod c05;
